@@ -304,8 +304,9 @@ def reindex(k, e):
 
 # ----------------------------------------------------------------------------------------------- contract objects
 class LoopSpec:
-    def __init__(self, invariants=None, modifies=(), unroll=None, decreases=None, lemmas=None, split=None):
+    def __init__(self, invariants=None, modifies=(), unroll=None, decreases=None, lemmas=None, split=None, unfold=None):
         self.invariants = dict(invariants or {})
+        self.unfold = dict(unfold or {})       # instances of recursive ghost definitions, ASSUMED at the start of an iteration
         self.split = dict(split or {})         # invariant name -> (bound variable, term): prove `preserved` separately for var == term and var != term
         self.lemmas = dict(lemmas or {})       # ghost assertions at the END of the body: proved there, then assumed for `preserved`
         self.modifies = list(modifies)
